@@ -27,6 +27,7 @@ func (fr *Frame) call(in ssa.Instruction, c *ssa.CallCommon, st *State, pc Term)
 			continue
 		}
 		if calleeMatches(cs.Callee, fr.lastCallee) && (cs.Ordinal == 0 || cs.Ordinal == fr.lastOrd) {
+			fr.csMatched[cs] = true
 			env := fr.specEnv(st, pc)
 			env.old = pre
 			vars := map[string]TV{}
@@ -134,6 +135,7 @@ func (fr *Frame) callInner(in ssa.Instruction, c *ssa.CallCommon, st *State, pc 
 				continue
 			}
 			if calleeMatches(cs.Callee, calleeName) && (cs.Ordinal == 0 || cs.Ordinal == ord) {
+				fr.csMatched[cs] = true
 				env := fr.specEnv(st, pc)
 				vars := map[string]TV{}
 				for i, a := range args {
@@ -496,6 +498,8 @@ func (fr *Frame) modularCall(fc *FuncContract, callee *ssa.Function, c *ssa.Call
 		}
 	} else if callee != nil && len(callee.Blocks) > 0 && !fc.IsExtern {
 		eff := vc.effectsOf(callee)
+		vc.noKeepOld = fc.Mutates
+		defer func() { vc.noKeepOld = false }()
 		if eff.top {
 			vc.havocAllHeaps(st)
 			for _, h := range eff.sorted() {
